@@ -90,9 +90,9 @@ def compare(ref, got, P, split, clear):
 
 
 WORKLOADS = [
-    ("dimer3", models.dimer, [[0, 1, 0, 1], [0, 0, 1, 1], [2, 3, 2, 3]]),               # 3 components, one of them vanishing
+    ("dimer4", models.dimer, [[0, 1, 0, 1], [0, 2, 0, 2], [0, 0, 1, 1], [2, 3, 2, 3]]),  # 4 components, the first (0011) vanishing
+    ("sx2", models.spinflip_atom, [[0, 1, 0, 1], [0, 0, 0, 0]]),                          # 2 components: fewer than ranks, so colours have several ranks
     ("atom6", models.hubbard_atom, [[0, 1, 0, 1], [0, 0, 0, 0], [1, 1, 1, 1], [0, 1, 1, 1], [0, 0, 0, 1], [1, 1, 0, 1]]),
-    ("sx2", models.spinflip_atom, [[0, 1, 0, 1], [1, 1, 0, 0]]),
 ]
 TRIPLES = [[a, b, d] for a in (-1, 0, 2) for b in (0, 1) for d in (-1, 0)]
 
